@@ -4,10 +4,19 @@ use crate::report::{verif_root, Report};
 use serde_json::{json, Value};
 
 pub fn run_engine_s(rep: &mut Report, thorough: bool, property: &str) {
+    run_engine_s_only(rep, thorough, property, None)
+}
+
+/// `only`: restrict to the bodies whose prepared state starts with the given prefix; then every
+/// failure (deadlock, panic, schedule-dependent result) is attributed to `property`
+pub fn run_engine_s_only(rep: &mut Report, thorough: bool, property: &str, only: Option<&str>) {
     let exe = format!("{}/engine_s/target/release/engine_s", verif_root());
-    let out = std::process::Command::new(&exe)
-        .arg(if thorough { "thorough" } else { "quick" })
-        .output();
+    let mut cmd = std::process::Command::new(&exe);
+    cmd.arg(if thorough { "thorough" } else { "quick" });
+    if let Some(o) = only {
+        cmd.args(["--only", o]);
+    }
+    let out = cmd.output();
     let out = match out {
         Ok(o) => o,
         Err(e) => {
@@ -43,11 +52,13 @@ pub fn run_engine_s(rep: &mut Report, thorough: bool, property: &str) {
             std::process::exit(2);
         }
         // deadlocks / panics belong to C08, schedule-dependent results to C18
-        if (property == "C18") != is_view {
+        if only.is_none() && (property == "C18") != is_view {
             continue;
         }
         let msg: String = f["message"].as_str().unwrap_or("").split(" @ ").next().unwrap_or("").chars().take(50).collect();
-        let sig = if is_view {
+        let sig = if only.is_some() {
+            format!("{}:S:{}:{}/{}", property, kind, f["state"].as_str().unwrap_or("?"), f["op"].as_str().unwrap_or("?"))
+        } else if is_view {
             format!("C18:S:result-depends-on-schedule:{}/{}", f["state"].as_str().unwrap_or("?"), f["op"].as_str().unwrap_or("?"))
         } else {
             format!("C08:S:{}:{}", if msg.to_lowercase().contains("deadlock") { "deadlock".to_string() } else { format!("panic:{}", msg) }, f["op"].as_str().unwrap_or("?"))
